@@ -245,6 +245,19 @@ def stmt_names(s):
     return out
 
 
+def counters_only(stmts):
+    """Names that occur as loop identifiers and are never assigned as variables."""
+    counters, assigned = set(), set()
+    for s in stmts:
+        st_ = stmt_trees(s)
+        for i, _lo, _hi in st_.get("loops") or []:
+            counters.add(i)
+        if st_.get("lhs"):
+            assigned.add(st_["lhs"])
+        assigned.update(st_.get("assignees") or [])
+    return counters - assigned
+
+
 def check_case(case):
     info = {}
     a, b = prepare(case)
@@ -317,6 +330,9 @@ def check_case(case):
                 return "phase %s: renaming is not injective: %s and %s both become %s" % (pname, inv[y], x, y), info
             inv[y] = x
         pa_names = set().union(*[stmt_names(s) for s in sa]) if sa else set()
+        # a name that both methods use only as the counter of a statement's own loop cannot interfere
+        # (each loop sets its counter before its body reads it): not a collision
+        pa_names -= counters_only(sa) & counters_only(sb)
         for x, y in sorted(rho.items()):
             if not pred(x):
                 if y != x:
